@@ -1393,6 +1393,7 @@ func (e *SpecEnv) applyRec(sf *SpecFn, n *SpecEnv, args []SV) SV {
 			sorts = append(sorts, fc.tc.sortOf(n.resolveType(b.Type)))
 			_ = i
 		}
+		e.extRecLimitBegin(sf, name, sorts, fc.tc.sortOf(ret)) // ext_induct.go: `reclimit`
 		fc.eng.declareUF(fc, name, sorts, fc.tc.sortOf(ret))
 		probe.cur, probe.old = st, st
 		body := probe.eval(sf.Body)
@@ -1402,6 +1403,7 @@ func (e *SpecEnv) applyRec(sf *SpecFn, n *SpecEnv, args []SV) SV {
 		}
 		fc.ufAxioms[name] = fmt.Sprintf("(assert (forall (%s) (! (= %s %s) :pattern (%s))))", strings.Join(append(hdecls, decls...), " "), call, body.t, call)
 		fc.assumes["rec spec "+sf.Pkg+"."+sf.Name+": defining equation (syntactically well-founded on its last parameter)"] = true
+		e.extRecLimitEnd(sf, name, strings.Join(append(hdecls, decls...), " "), call)
 		e.extRecFrame(sf, n, name, comps, fc.tc.sortOf(ret))
 	}
 	var ts []string
@@ -1410,6 +1412,9 @@ func (e *SpecEnv) applyRec(sf *SpecFn, n *SpecEnv, args []SV) SV {
 	}
 	for _, a := range args {
 		ts = append(ts, a.t)
+	}
+	if rn, ok := recRename[fc][name]; ok { // ext_induct.go: inside the defining axiom of a `reclimit`ed function
+		return SV{t: app(rn, ts...), typ: ret}
 	}
 	return SV{t: app(name, ts...), typ: ret}
 }
